@@ -350,6 +350,31 @@ func (c *Ctx) MustField(rule, pkgPath, typeName, field string) *types.Var {
 	return f
 }
 
+// MustFieldLike resolves a field by name, or — when a refactoring renamed it — as the only field of the struct whose
+// type satisfies like.
+func (c *Ctx) MustFieldLike(rule, pkgPath, typeName, field string, like func(types.Type) bool) *types.Var {
+	if f := c.Field(pkgPath, typeName, field); f != nil {
+		return f
+	}
+	if n := c.Named(pkgPath, typeName); n != nil {
+		if st, ok := n.Underlying().(*types.Struct); ok {
+			var found *types.Var
+			k := 0
+			for i := 0; i < st.NumFields(); i++ {
+				if like(st.Field(i).Type()) {
+					found = st.Field(i)
+					k++
+				}
+			}
+			if k == 1 {
+				return found
+			}
+		}
+	}
+	c.undecided(rule, "anchor:"+shortPkg(pkgPath)+"."+typeName+"."+field, token.NoPos, "anchor field not found")
+	return nil
+}
+
 // IfaceMethod resolves a method object of a named interface type.
 func (c *Ctx) IfaceMethod(pkgPath, typeName, method string) *types.Func {
 	n := c.Named(pkgPath, typeName)
